@@ -699,6 +699,15 @@ func (t *tr) block(stmts []ast.Stmt, k cont) string {
 				return "(match " + t.expr(x.Rhs[0]) + " with\n" + t.pad() + "| .error err => " + errBranch + "\n" + t.pad() + "| .ok " + t.okPattern(x.Rhs[0], "_") + " =>\n" + t.pad() + cont() + ")"
 			}
 		}
+		// x.F = e   (field of a local / parameter value)  ->  let x := { x with F := e }
+		if len(x.Lhs) == 1 && len(x.Rhs) == 1 && x.Tok == token.ASSIGN {
+			if sel, ok := x.Lhs[0].(*ast.SelectorExpr); ok {
+				if id, ok := sel.X.(*ast.Ident); ok {
+					v := t.ident(id.Name)
+					return "let " + v + " := { " + v + " with " + sel.Sel.Name + " := " + t.expr(x.Rhs[0]) + " };\n" + t.pad() + rest()
+				}
+			}
+		}
 		if len(x.Lhs) == 1 && len(x.Rhs) == 1 {
 			if c, ok := x.Rhs[0].(*ast.CallExpr); ok && exprString(c.Fun) == "new" {
 				return rest() // pure allocation of an out-parameter target
@@ -751,9 +760,55 @@ func (t *tr) block(stmts []ast.Stmt, k cont) string {
 				}
 			}
 		}
+		// for k, v := range X { acc.M(args) }  (possibly nested, same accumulator)  ->  let acc := Go.forRange X acc (fun acc k v => acc.M args)
+		if acc, body, ok := t.rangeFold(x); ok {
+			return "let " + acc + " := " + body + ";\n" + t.pad() + rest()
+		}
 		return t.bad("range loop", x)
 	}
 	return t.bad(fmt.Sprintf("statement %T", s), s)
+}
+
+// rangeFold: a range loop whose body is one mutator call on a local accumulator (or such a loop again) is a fold.
+func (t *tr) rangeFold(x *ast.RangeStmt) (acc string, lean string, ok bool) {
+	if len(x.Body.List) != 1 {
+		return "", "", false
+	}
+	binder := func(e ast.Expr) string {
+		if e == nil {
+			return "_"
+		}
+		if s := exprString(e); s != "_" {
+			return t.ident(s)
+		}
+		return "_"
+	}
+	k, v := binder(x.Key), binder(x.Value)
+	switch b := x.Body.List[0].(type) {
+	case *ast.ExprStmt:
+		c, isCall := b.X.(*ast.CallExpr)
+		if !isCall {
+			return "", "", false
+		}
+		sel, isSel := c.Fun.(*ast.SelectorExpr)
+		if !isSel {
+			return "", "", false
+		}
+		id, isID := sel.X.(*ast.Ident)
+		if !isID {
+			return "", "", false
+		}
+		acc = t.ident(id.Name)
+		inner := "((" + acc + ")." + sel.Sel.Name + " " + t.args(c.Args) + ")"
+		return acc, "(Go.forRange " + t.expr(x.X) + " " + acc + " (fun " + acc + " " + k + " " + v + " => " + inner + "))", true
+	case *ast.RangeStmt:
+		a, inner, ok2 := t.rangeFold(b)
+		if !ok2 {
+			return "", "", false
+		}
+		return a, "(Go.forRange " + t.expr(x.X) + " " + a + " (fun " + a + " " + k + " " + v + " => " + inner + "))", true
+	}
+	return "", "", false
 }
 
 func (t *tr) elseBranch(e ast.Stmt, cont cont) string {
